@@ -57,6 +57,22 @@ def r1_bound_before_append(ctx):
                 stopped += 1
         ctx.ob("C13.R1", "exceeded-means-no-consultation", stopped == len(bs) and len(bs) >= 2,
                "on each of the %d bound tests, the `exceeded` edge never reaches the scheduler consultation" % len(bs), loc=sch.loc())
+        # the bound is consulted by EVERY scheduling step, also by the one that only finds out that nothing is left to run: an execution
+        # that has used exactly n steps when it finishes or deadlocks is still stopped by the bound (FailAfter reports the bound,
+        # ContinueAfter abandons silently instead of reporting a deadlock)
+        CSW = E + "ExecutionState.context_switches"
+        incs = [x for x, st in sch.assigns() if last_field(st["dst"]) == CSW]
+        ms_sites = set()
+        for blk in sch.blocks:
+            t = blk["term"]
+            if t["k"] == "switch" and not blk.get("cleanup") and kinds.discr_subject_field(sch, sl, t["discr"]) == "shuttle_engine::config::Config.max_steps":
+                ms_sites.add(sch.term_site(blk["id"]))
+        w = sch.path_exists(incs[0], sch.is_return, lambda x: x in ms_sites) if incs and ms_sites else True
+        ctx.ob("C13.R1", "bound-consulted-by-every-step", bool(incs) and bool(ms_sites) and w is None,
+               "every path of schedule() that counts a step goes through the match on config.max_steps before it returns (also the paths that end in Finished / Deadlock)"
+               if (incs and ms_sites and w is None) else
+               "schedule() can count a step and return (e.g. with Finished or Deadlock) without consulting config.max_steps: an execution that reaches the bound "
+               "exactly when nothing is left to schedule is not stopped by it", loc=sch.loc())
     # (ii) every advance is preceded by schedule()
     ADV = ES + "advance_to_next_task"
     cal = kinds.callers(prog, ADV)
